@@ -13,8 +13,11 @@
 //
 //	const name [T] = <int literal | expression over literals and earlier constants>   (chunkSize, init0..init3, …)
 //	func New: md4.state[k] = <const name>   for k = 0..3        (nothing else may touch the state)
-//	func f(p1, …, pn uint32) uint32 { return <expr> }           expr over + - ^ & | << >>, ( ), params,
-//	                                                            int literals, calls of such helpers
+//	func f(p1, …, pn uint32) uint32 { return <expr> }           expr over + - ^ & | &^ << >>, unary ^, ( ), params,
+//	                                                            int literals, constants of the file, calls of such
+//	                                                            helpers; its bitwise parts are named by their truth
+//	                                                            table and one-line bitwise helpers inlined
+//	                                                            (md4_bitfn.go, N9–N11)
 //	func (md4 *MD4) processChunk(chunk []byte):                 whatever md4_peval.go can reduce to
 //	    v = helper(<register | md4.state[k] on entry | message word | constant>…)   any number of these steps,
 //	    md4.state[k] = md4.state[j] on entry + v  (or v)        as final values of the four state words
@@ -507,6 +510,9 @@ func md4Kernel(repo string) (string, any, error) {
 		}
 		if emitting[name] {
 			return m.errf(fd, "helper %s: recursive", name)
+		}
+		if strings.HasPrefix(name, "bitfn") {
+			return m.errf(fd, "helper %s: the name is reserved for the truth tables of the generated module", name)
 		}
 		emitting[name] = true
 		defer delete(emitting, name)
